@@ -463,11 +463,17 @@ fn check_balance<'ctx>(
         "balance before rounding in txn: {}",
         balance.as_inline_display()
     );
-    let balance = balance.round(ctx);
+    let mut balance = balance.round(ctx);
     if balance.is_zero() {
         return Ok(());
     }
-    if let Some((a1, a2)) = balance.maybe_pair() {
+    // commodities which sum up to zero don't take part in the implied exchange.
+    balance.remove_zero_entries();
+    if let Some((a1, a2)) = balance
+        .maybe_pair()
+        // implied exchange rate must be positive.
+        .filter(|(a1, a2)| a1.value.is_sign_positive() != a2.value.is_sign_positive())
+    {
         // fill in converted amount.
         for p in postings.iter_mut() {
             let amount: Result<SingleAmount<'_>, _> = (&p.amount).try_into();
